@@ -122,7 +122,7 @@ def jleaf(v):
     return ["impure", t.__module__ + "." + t.__name__]
 
 
-def observe_block(bt, block, ids, fixer):
+def observe_block(bt, block, ids, fixer, want_tjson=False):
     from . import tables as T
 
     name = bt.name
@@ -135,6 +135,14 @@ def observe_block(bt, block, ids, fixer):
         ex["k"] = "table"
         if fixer is not None and not isinstance(fixer, type):
             ex["err"], ex["warn"] = fixer._errors, fixer._warnings
+        if want_tjson:
+            # table_to_json_data of the delivered table (C07: the other side of the 'jsondata' form)
+            from pdtable.io.json import table_to_json_data
+
+            try:
+                ex["tjson"] = observe_block(bt, table_to_json_data(block), ids, None)
+            except Exception as e:  # reported by the oracle
+                ex["tjson"] = {"k": "raised", "exc": f"{type(e).__name__}: {e}"[:200]}
         return ex
     if isinstance(block, dict) and "columns" in block:
         return {"k": "json", "name": block.get("name"), "dests": sorted(block.get("destinations", {})),
@@ -180,7 +188,7 @@ def run_reader(case, via="parse_blocks"):
                     origin = block.metadata.origin.input_location.row
                 elif hasattr(block, "origin") and hasattr(block.origin, "input_location"):
                     origin = block.origin.input_location.row
-                o = observe_block(bt, block, ids, fixer)
+                o = observe_block(bt, block, ids, fixer, want_tjson=bool(case.get("want_tjson")))
                 o["t"] = bt.name
                 o["origin"] = origin
                 events.append(o)
